@@ -174,6 +174,9 @@ def generate():
         "(%s, %s, [%s])" % (e.split(":")[0], e.split(":")[1], ", ".join("true" if c == "1" else "false" for c in e.split(":")[2])) for e in cmp_rows))
     L.append("/-- (JSON text, serializeJson, serializeJsonPretty, serializeMsgPack) of the document the text denotes -/")
     L.append("def doc_rows : List (List Nat × List Nat × List Nat × List Nat) := [%s]" % ", ".join("(%s)" % ", ".join(hexl(x) for x in e.split(":")) for e in docrows["doc_rows"]))
+    L.append("/-- (MessagePack bytes of a document of doc_rows, code of deserializeMsgPack on them, serializeJson of the document read back) -/")
+    L.append("def mpback_rows : List (List Nat × Nat × List Nat) := [%s]" % ", ".join(
+        "(%s, %s, %s)" % (hexl(e.split(":")[0]), e.split(":")[1], hexl(e.split(":")[2])) for e in docrows["mpback_rows"]))
     L.append("/-- (filter text, input text, code 0 = Ok, serializeJson of the filtered document) -/")
     L.append("def filter_rows : List (List Nat × List Nat × Nat × List Nat) := [%s]" % ", ".join(
         "(%s, %s, %s, %s)" % (hexl(e.split(":")[0]), hexl(e.split(":")[1]), e.split(":")[2], hexl(e.split(":")[3])) for e in docrows["filter_rows"]))
